@@ -1434,6 +1434,10 @@ class C12(Spec):
             a = r.choice(fam + fam + ["RunOnce", "RunOnDate", "RunAfterDate", "RunAfterDays", "RunEveryNPeriods"])
             if a in fam:
                 inner = {"a": a, "kw": {"run_on_first_date": r.random() < 0.5, "run_on_end_of_period": r.random() < 0.5, "run_on_last_date": r.random() < 0.5}}
+                if r.random() < 0.3:
+                    # the same flags given by position (documented order: first date, end of period, last date)
+                    kwf = inner.pop("kw")
+                    inner["args"] = [kwf["run_on_first_date"], kwf["run_on_end_of_period"], kwf["run_on_last_date"]][: r.randint(2, 3)]
             elif a == "RunOnce":
                 inner = {"a": a}
             elif a == "RunOnDate":
@@ -1560,7 +1564,14 @@ class C13(Spec):
 
         root = mk("top", 0, ())
         cfg = {"integer": True, "comm": None, "capital": 1e6, "fi": False, "obs_price": False, "obs_eod": False, "profile": "stack"}
-        return {"driver": "engine", "cfg": cfg, "tree": root, "feed": fspec, "stacks": stacks, "family": "flow", "fired": {}}
+        plan = {"driver": "engine", "cfg": cfg, "tree": root, "feed": fspec, "stacks": stacks, "family": "flow", "fired": {}}
+        if r.random() < 0.25 and n >= 2:
+            # the top strategy's own stack creates one more sub-strategy on some date
+            late = [{"a": "Spy", "id": 1900, "ret": None, "first": True}] + _gen_flow_stack(r, ids)
+            t0 = r.randint(0, n - 1)
+            root["algos"].insert(1, {"a": "Spawn", "t": t0, "name": "late", "stack": late})  # (right behind the opening spy, which never fails)
+            plan["spawn"] = {"t": t0, "name": "top>late", "stack": late}
+        return plan
 
     def gen_oob(self, r, tier):
         n = r.randint(4, 14)
@@ -1736,6 +1747,10 @@ class C19(Spec):
                    "algos": [{"a": "Spy", "id": 900}, drive_engine.sched_spec(r, plan["feed"]["dates"]), {"a": "SelectAll"}, {"a": "WeighEqually"}, {"a": "Rebalance"}]}
             plan["tree"]["children"][plan["tree"]["children"].index(old)] = mid
             plan.setdefault("fired", {})["three_levels"] = 1
+        if plan["feed"].get("bidoffer") and len(plan["feed"]["dates"]) >= 4 and r.random() < 0.35:
+            # the top strategy grows a sub-strategy of its own making on an early date, set up with spreads of its own
+            plan["tree"]["algos"].insert(1, {"a": "Spawn", "t": r.randint(0, 1), "name": "late", "stack": [], "own_bidoffer": r.choice([20.0, 0.0])})
+            plan.setdefault("fired", {})["sub_strategy_created_mid_run_with_own_data"] = 1
         # a mixed state before the push: some sub-tree was switched to the other position mode by hand
         inner_strats = [s2 for p2, s2 in drive_engine.trees.strategies(plan["tree"]) if len(p2) > 1]
         if inner_strats and r.random() < 0.3:
@@ -1802,7 +1817,16 @@ class C19(Spec):
                 # parent= -> the strategy itself declared nothing -> all tickers
                 passed = [c for c in s["children"] if c["k"] == "S" and not (c.get("how") == "parent" and c["cls"] != "FixedIncomeStrategy")]
                 exp_cols[">".join(p)] = [set(subs)] if passed else [set(subs) | set(tick)]
+        spawned = [a for a in plan["tree"].get("algos", []) if a.get("a") == "Spawn"]
         for name, t, cl in cols:
+            if spawned and name == plan["tree"]["name"] and t >= spawned[0]["t"] and spawned[0]["name"] in cl:
+                # (one more column for the sub-strategy the top created itself; on the creation date the spy runs before it exists)
+                cl = [c for c in cl if c != spawned[0]["name"]]
+                if t > spawned[0]["t"]:
+                    fired["universe_column_of_spawned_child"] = 1
+            elif spawned and name == plan["tree"]["name"] and t > spawned[0]["t"]:
+                viol.append({"check": "c19_universe", "detail": "date #%d: %s has no universe column for the sub-strategy %s it created on date #%d" % (t, name, spawned[0]["name"], spawned[0]["t"]), "flags": {"spawned": True}})
+                break
             if set(cl) not in exp_cols[name] or len(cl) != len(set(cl)):
                 viol.append({"check": "c19_universe", "detail": "date #%d: %s sees universe columns %s, declared %s" % (t, name, cl, sorted(exp_cols[name][0])), "flags": {}})
                 break
